@@ -358,12 +358,63 @@ def plan(tier, seed):
     return [{"part": "enum", "maxlen": 5, "cfgs": [i]} for i in range(n)] + [{"part": "random", "n": 20000} for _ in range(15)]
 
 
+def run_failed_write(sh, lab):
+    """A write of a frame fails once (a full pipe, an interrupted system call) and the application goes on: finishing
+    still draws, and the last frame shows the maximum at 100 %."""
+    for kind in ("plain", "ansi"):
+        for mx in (1, 5):
+            for fail_at in range(0, mx + 1):  # which call's frame is lost: 0 = start(), k = the k-th advance()
+                for exc in (OSError(11, "write could not complete without blocking"), KeyboardInterrupt()):
+                    st = lab.RecStream()
+                    out = lab.Output(st, lab.AnsiFormatter(forced=True) if kind == "ansi" else lab.PlainFormatter())
+                    bar = lab.ProgressBar(out, mx, 0)
+                    bar.set_bar_width(10)
+                    rec = {"kind": "failed-write", "out": kind, "max": mx, "frame_lost_at_call": fail_at, "error": type(exc).__name__}
+                    sh.case(("failed-write", kind, mx, fail_at, type(exc).__name__), True)
+                    orig_write = st.write
+                    state = {"armed": False}
+
+                    def write(s2, orig_write=orig_write, state=state, exc=exc):
+                        if state["armed"] and s2.strip():
+                            state["armed"] = False
+                            raise exc
+                        return orig_write(s2)
+
+                    st.write = write
+                    calls = [bar.start] + [bar.advance] * mx
+                    for k, call in enumerate(calls):
+                        state["armed"] = k == fail_at
+                        CLOCK.advance(1)
+                        try:
+                            call()
+                        except (OSError, KeyboardInterrupt):
+                            pass  # the application catches it and goes on
+                        except Exception as e:
+                            sh.violate("raises", rec, "call #%d raised %r" % (k, e))
+                    state["armed"] = False
+                    n0 = len(st.events)
+                    try:
+                        bar.finish()
+                    except Exception as e:
+                        sh.violate("raises", rec, "finish() raised %r" % (e,))
+                        continue
+                    sh.count("failed_write_runs")
+                    text = CSI.sub("", st.fetch()).replace("\r", "\n")
+                    frames = [l for l in text.split("\n") if l.strip()]
+                    last = frames[-1] if frames else ""
+                    m = re.search(r"\[([^\]]*)\]", last)
+                    if "%d/%d" % (mx, mx) not in last or "100%" not in last or not m or m.group(1).strip("=") != "":
+                        sh.violate("finish-shows-max", rec, "after finish() the last frame on the stream is %r, not the maximum at 100%%" % (last,))
+
+
 def run(sh, spec):
     import itertools
 
     repo.activate()
     lab = Lab()
     rng = sh.rng
+    if spec["part"] == "enum" and 0 in spec["cfgs"]:
+        run_failed_write(sh, lab)
     if spec["part"] == "enum":
         grid = config_grid(sh.tier)
         for ci in spec["cfgs"]:
